@@ -70,6 +70,9 @@ func runPlan(c *core.Ctx, p *plan) error {
 		return err
 	}
 	lap("prepare")
+	// the language-version variant is independent of everything below: it runs alongside
+	langCh := make(chan error, 1)
+	go func() { langCh <- langVariant(c, b, p) }()
 
 	// 1. TLC: model checking of the combinator modules (concurrently with the search)
 	type mcOut struct {
@@ -215,6 +218,10 @@ func runPlan(c *core.Ctx, p *plan) error {
 		return err
 	}
 	lap("real")
+	if err := <-langCh; err != nil {
+		return err
+	}
+	lap("lang_variant_wait")
 
 	mc := <-mcCh
 	if mc.err != nil {
